@@ -61,6 +61,11 @@ TEMPLATES = {
     "expr_extends": "{% extends lay if lay else 'base' %}{% block a %}ea{{ f('1') }}{% endblock %}",
     "loop_agen": "{% for x in agen(2) %}{{ x }}{{ f('1') }}{% endfor %}z",
     "loop_agen_length": "{% for x in agen(2) %}{{ loop.length }}{{ f('1') }}{% endfor %}",
+    # loops over a synchronous generator object handed in as data (the engine adapts it for `async for`)
+    "syncgen_loop_break": "{% for x in sgen(3) %}{{ f('1') }}{% if x == 1 %}{% break %}{% endif %}{{ x }}{% endfor %}z{{ f('2') }}",
+    "syncgen_loopctx": "{% for x in sgen(3) %}{{ loop.index }}{{ f('1') }}{% if x == 1 %}{% break %}{% endif %}{% endfor %}z",
+    "syncgen_loopfilter_break": "{% for x in sgen(3) if x != 9 %}{{ f('1') }}{% if x == 1 %}{% break %}{% endif %}{% endfor %}z{{ f('2') }}",
+    "syncgen_in_macro": "{% macro m() %}{% for x in sgen(2) %}{{ f('1') }}{% endfor %}{% endmacro %}[{{ m() }}]{{ f('2') }}",
     "loop_break": "{% for x in items %}{{ f('1') }}{% if x == 2 %}{% break %}{% endif %}{{ x }}{% endfor %}z",
     "loopfilter_break": "{% for x in items if x != 9 %}{{ f('1') }}{% if x == 2 %}{% break %}{% endif %}{{ x }}{% endfor %}z{{ f('2') }}",
     "loop_continue": "{% for x in items %}{% if x == 2 %}{% continue %}{% endif %}{{ x }}{{ f('1') }}{% endfor %}",
@@ -111,12 +116,15 @@ def make_data():
             await e4.Gate("ag%d" % i)
             yield i
 
+    def sgen(n):
+        yield from range(n)
+
     class N:
         def __init__(self, v, c=()):
             self.v = v
             self.c = list(c)
 
-    return {"f": f, "g": g, "agen": agen, "lay": "base", "items": [1, 2, 3], "tree": [N(1, [N(2), N(3, [N(4)])]), N(5)]}
+    return {"f": f, "g": g, "agen": agen, "sgen": sgen, "lay": "base", "items": [1, 2, 3], "tree": [N(1, [N(2), N(3, [N(4)])]), N(5)]}
 
 
 def classify(fn, name, src_root):
@@ -129,7 +137,13 @@ def classify(fn, name, src_root):
             return "template", "loop-filter"
         return "template", name
     if fn.startswith(src_root):
-        return "jinja", fn.rsplit("/", 1)[-1] + ":" + name
+        base = fn.rsplit("/", 1)[-1]
+        if base != "filters.py":
+            # adapters and helpers the engine opens on behalf of the template's own statements (iteration adapters of
+            # async_utils, runtime loop machinery, environment render drivers) are the template's generators too;
+            # generators inside filter implementations stay informational (they belong to the filter's contract)
+            return "template", "engine:" + base + ":" + name
+        return "jinja", base + ":" + name
     return "data", name
 
 
@@ -240,7 +254,8 @@ def run(ctx: core.Ctx):
     ctx.assumptions += [
         "cancellation = a BaseException thrown into the coroutine at a suspension point (asyncio's mechanism)",
         "no event loop is running, so nothing closes generators behind the render's back",
-        "template-owned generator = code object compiled from a template (root, block_*, loop filter t_*)",
+        "template-owned generator = code object compiled from a template (root, block_*, loop filter t_*) or an async "
+        "generator of jinja2 outside filters.py opened for a template statement (iteration adapters, render drivers)",
     ]
     names = [n for n in TEMPLATES if n not in HELPERS]
     ctx.pmap(shard, names)
